@@ -741,7 +741,7 @@ def _tmp_base():
 
 IDS = ["n1", "n2", "n.1", "a.b", "a", "b", "", "é", "a→b", "x.y→z", "n:1", ".", "g.1", "n.1.x"]
 SCENARIOS = ["present", "present", "present", "writer_missing", "writer_mismatch", "reader_missing", "reader_missing",
-             "reader_missing_sibling", "corrupt", "corrupt"]
+             "reader_missing_sibling", "reader_missing_sibling_gone", "corrupt", "corrupt"]
 SPECIAL_BLOBS = ["", "7b7d", "30", "31", "6e756c6c", "5b5d", "2222", "7b", "0a", "0a0a", "7b7d0a", "ff", "66616c7365",
                  "7b226d6f6465223a2266756c6c227d", "7b226d6f6465223a2266756c6c227d0a"]
 
@@ -1156,12 +1156,29 @@ def _check_disk_codec(case, codec, rec):
             if scen == "present":
                 _set_mtimes(snap, dpath)
                 readers(True, dpath, "present")
-            elif scen in ("reader_missing", "reader_missing_sibling"):
-                if scen == "reader_missing_sibling":
-                    write_snapshot_auto(snap, etag_from=None, etag_to=eb, payload=p1, compression=codec, delta_mode=False)
+            elif scen in ("reader_missing", "reader_missing_sibling", "reader_missing_sibling_gone"):
+                if scen != "reader_missing":
+                    spath, _ = write_snapshot_auto(snap, etag_from=None, etag_to=eb, payload=p1, compression=codec, delta_mode=False)
+                    if scen == "reader_missing_sibling_gone":
+                        # the sibling full snapshot's BODY was cleaned up again; whatever sidecar it had stays behind
+                        os.unlink(spath)
+                        labels.append("sibling-sidecar-left" if os.path.exists(spath + ".meta") else "sibling-no-sidecar")
                 os.unlink(fpath)
                 if os.path.exists(fpath + ".meta") and len(case["blobs"]) % 2:
                     os.unlink(fpath + ".meta")
+                elif os.path.exists(fpath + ".meta"):
+                    labels.append("baseline-sidecar-left")
+                # the removed full snapshot itself: absence ({}) or an error, never an object that was not written as a state
+                evals += 1
+                try:
+                    gone = read_snapshot(snap, etag_to=ea)
+                except Exception:
+                    labels.append("removed-full:raised")
+                else:
+                    if canon(gone) not in (canon({}), canon(None)) and not (ea == eb and scen == "reader_missing_sibling" and canon(gone) == cp1):
+                        viol(f"the full snapshot of {ea!r} was removed, yet read_snapshot(root, etag_to=) returns {canon(gone)[:300]}",
+                             "removed-full-read-returns-object")
+                    labels.append("removed-full:absent")
                 _set_mtimes(snap, dpath)
                 readers(False, dpath, "missing")
             elif scen == "corrupt":
